@@ -10,6 +10,7 @@ from itertools import permutations, product
 from .. import impl, progcheck
 from ..common import pmap, permuted
 from ..enum import vals
+from ..ref import parse as rp
 from ..ref import sem
 
 LEVEL = "model_checking"
@@ -17,7 +18,7 @@ RULE = ("states = distinct (salt, declaration order, weight vector) programs com
         "transitions = evaluations, each compared with md5/UTF-8/sorted-names/first-32-bits recomputed "
         "independently and located in the exact (Fraction) partition; plus known answers of the position function")  # fmt: skip
 
-SALTS = [None, "", "s", "exp-1", "é", "日本", "🎲", "e\u0301", "\u212b\u2126", "\u1100\u1161", "q\u0323\u0307", "S" * 140, "l’été", "“beta”", "„Neu“", "‹x›"]
+SALTS = [None, "", "s", "exp-1", "é", "日本", "🎲", "e\u0301", "\u212b\u2126", "\u1100\u1161", "q\u0323\u0307", "S" * 140, "l’été", "“beta”", "„Neu“", "‹x›", "kid's", "exp\\new", "a\\", "\\t", 'say "hi"', "%s", "{0}"]
 NAMES = ["a", "ab", "b", "ba"]
 # Mixed-case / underscore / digit names.  "Alphabetical order" is taken as code-point order of the
 # field names (what sorted() gives and what every release so far has published): any other order for
@@ -49,6 +50,36 @@ def _work(units):
     wv = weight_vectors()
     for salt, order, wname, tier in units:
         order = tuple(order) if isinstance(order, list) else order
+        if order == "RECOMPILE":
+            # ONE evaluator recompiled from salt to near-identical salt: the scheme must follow the salt last given
+            from .. import impl, oracle
+            from ..common import enc, quiet
+
+            chain = ["checkout v2", "checkout  v2", "checkout\tv2", "checkoutv2", "Checkout v2", "checkout v2 ", "checkout v2", "p\x0cq", "p\x0c q", "http://a/x", "http://a/y", "é", "e\u0301"]
+            ev = None
+            for salt in chain:
+                ast = ("prog", "e", salt, ("uid",), ("ret", tuple(wv[wname])))
+                text = rp.render(ast)
+                if rp.classify(text) != ("accept", ast):
+                    continue
+                try:
+                    if ev is None:
+                        ev = impl.ExperimentEvaluator(text)
+                    else:
+                        with quiet():
+                            ev.recompile(text)
+                except Exception as e:  # noqa
+                    acc.violation({"kind": "scheme:recompile", "sub": "build", "text": text, "observed": f"{type(e).__name__}: {e}"})
+                    continue
+                acc.add("programs")
+                for u in range(24):
+                    acc.add("evaluations")
+                    why = oracle.agree(impl.call(ev, {"uid": u}), oracle.expected(ast, {"uid": u}))
+                    if why:
+                        acc.violation({"kind": "scheme:recompile", "sub": "eval", "text": text, "env": enc({"uid": u}), "chain": chain[: chain.index(salt) + 1] if salt in chain else chain,
+                                       "why": "after recompiling through near-identical salts the position is not md5(salt + values) of the salt last given: " + why})  # fmt: skip
+                        break
+            continue
         if order == "COLLIDE":
             # unit ids whose hash KEYS collide under crc32 (and have equal length), evaluated one after the other
             from ..enum import collide
@@ -65,7 +96,7 @@ def _work(units):
 
 def run(res, tier):
     orders = [p for k in (1, 2, 3) for p in permutations(NAMES, k)] + [p for ns in NAMES2 for p in permutations(ns)] + DUPLICATES
-    units = [(s, o, w, tier) for s in SALTS for o in orders for w in weight_vectors()] + [(None, "COLLIDE", w, tier) for w in weight_vectors()]
+    units = [(s, o, w, tier) for s in SALTS for o in orders for w in weight_vectors()] + [(None, "COLLIDE", w, tier) for w in weight_vectors()] + [(None, "RECOMPILE", "eq64", tier), (None, "RECOMPILE", "123", tier)]
     for w in pmap(_work, permuted(units, "c12"), chunk=8):
         res.merge_worker(w)
     from ..common import hostile_runs
@@ -101,6 +132,9 @@ def replay(data):
         a = rp.classify(data["text"])[1]
         wname = {64: "eq64", 3: "123", 2: "19", 63: "ramp63"}[len(a[4][1])]
         return replay_in_host(data, "mc.checks.c12", "_work", [[a[2], list(a[3]), wname, "quick"]])
+    if data.get("kind") == "scheme:recompile":
+        r = _work([(None, "RECOMPILE", "eq64", "quick"), (None, "RECOMPILE", "123", "quick")])
+        return bool(r["viol"]), (r["viol"][0].get("why", "recompile raised") if r["viol"] else "the evaluator follows the salt last given")
     if data.get("kind") == "proba":
         fn = getattr(impl.binning, "deterministic_proba", None)
         try:
